@@ -28,9 +28,8 @@ import lib
 
 PROP = 'C05'
 THEOREMS = [
-    'C05_tracks', 'C05_tracks_layout', 'C05_no_backend_error', 'C05_no_orphans', 'C05_no_missing',
-    'C05_rename_free', 'C05_history_tracks', 'C05_safe_run_is_run', 'C05_layout_spec',
-    'C05_ptrref_agrees',
+    'C05_tracks', 'C05_no_backend_error', 'C05_no_orphans', 'C05_no_missing', 'C05_safe_run_is_run',
+    'C05_history_tracks', 'C05_empty_ok', 'C05_rename_free', 'C05_ptrref_agrees',
 ]
 REFUTED = ['C05_full_refuted']
 IMPL = os.path.join(lib.VERIF, 'harness', 'impl', 'c05_impl.py')
@@ -765,10 +764,10 @@ def gen_cases(tier):
     ex = exhaustive_small()
     if tier == 'quick':
         # a seeded sample of the exhaustive family + all of it in the thorough tier
-        idx = sorted(rnd.sample(range(len(ex)), min(len(ex), 110)))
+        idx = sorted(rnd.sample(range(len(ex)), min(len(ex), 80)))
         model_cases += [ex[i] for i in idx]
-        plan = [('model', 90, (8, 22)), ('lprops', 70, (8, 20)), ('bases', 70, (8, 20)), ('wild', 70, (6, 18))]
-        nrich = 60
+        plan = [('model', 70, (8, 22)), ('lprops', 55, (8, 20)), ('bases', 55, (8, 20)), ('wild', 45, (6, 18))]
+        nrich = 50
     else:
         model_cases += ex
         plan = [('model', 1500, (8, 30)), ('lprops', 1100, (8, 26)), ('bases', 1100, (8, 26)), ('wild', 900, (6, 22))]
@@ -785,14 +784,44 @@ def gen_cases(tier):
 # ---------------------------------------------------------------- running
 
 def run_impl(lines, nproc=8):
-    return lib.parallel_lines([lib.PY, IMPL, lib.REPO, 'hist'], lines, nproc=nproc, env=lib.impl_env())
+    """like lib.parallel_lines, but the chunking is by cost (a case is a whole history, ~0.1 s per
+    step), not by 200 lines"""
+    import subprocess
+    from concurrent.futures import ThreadPoolExecutor
+    if not lines:
+        return []
+    nproc = max(1, min(nproc, len(lines) // 6 or 1))
+    # round-robin so that every worker gets the same mix of cheap and expensive histories
+    buckets = [[] for _ in range(nproc)]
+    for i, l in enumerate(lines):
+        buckets[i % nproc].append((i, l))
+
+    def one(bucket):
+        argv = [lib.PY, IMPL, lib.REPO, 'hist']
+        p = subprocess.run(argv, input='\n'.join(l for _, l in bucket) + '\n', env=lib.impl_env(),
+                           stdout=subprocess.PIPE, stderr=subprocess.PIPE, text=True, timeout=7200)
+        if p.returncode != 0:
+            raise RuntimeError(f'{argv}: rc={p.returncode}\n{p.stderr[-3000:]}')
+        out = p.stdout.split('\n')
+        if out and out[-1] == '':
+            out.pop()
+        if len(out) != len(bucket):
+            raise RuntimeError(f'{argv}: {len(out)} results for {len(bucket)} cases\n{p.stderr[-2000:]}')
+        return out
+    with ThreadPoolExecutor(nproc) as ex:
+        res = list(ex.map(one, buckets))
+    final = [None] * len(lines)
+    for bucket, outs in zip(buckets, res):
+        for (i, _), o in zip(bucket, outs):
+            final[i] = o
+    return final
 
 
 def impl_canon(step):
     """canonical 'ok <effects> # <catalog>' of an accepted impl step"""
     effs = ','.join(sorted(step.get('ops', [])))
     cat = '&'.join(f'{t}={",".join(cols)}' for t, cols in sorted(step.get('cat', {}).items()))
-    return f'ok {effs} # {cat}'
+    return f'ok {effs} # {cat}'.strip()
 
 
 REJ = ('rejected', 'rejected-ise', 'pg-rejected', 'pg-ise')
@@ -801,7 +830,7 @@ REJ = ('rejected', 'rejected-ise', 'pg-rejected', 'pg-ise')
 def compare_case(evs, impl, model_line):
     """-> dict(status=..., first=index of first disagreement or None, compared=n steps compared,
                oos=bool, detail=...)"""
-    msteps = [x.strip() for x in model_line.split(' | ')]
+    msteps = [x.strip() for x in model_line.split('|')]
     isteps = impl.get('steps', [])
     res = {'compared': 0, 'mismatch': None, 'oos': False, 'abstain': False, 'model_stuck': False}
     if 'harness_error' in impl or len(isteps) != len(evs) or len(msteps) != len(evs):
@@ -845,15 +874,17 @@ def compare_case(evs, impl, model_line):
 
 
 # monitor failures that are the recorded defects
-def classify_failure(mon_entry, guide: Guide):
+def classify_failure(mon_entry, lost, orphans):
+    """lost: link tables hit by C05-F1 (computed -> stored on a link holding stored link properties, for
+    every type of the owner's cone, names before or after the step); orphans: (table, column) left by
+    C05-F2 (USING with a multi expression on a stored single property)"""
     kind = mon_entry[0]
-    lost = guide.lost_tables()
     if kind == 'missing-column' and mon_entry[1] in lost and re.fullmatch(r'q\d+', str(mon_entry[2])):
         return 'C05-F1'
     if kind == 'pg-error' and mon_entry[1] in ('drop-missing-column', 'alter-missing-column') \
             and mon_entry[2] in lost and re.fullmatch(r'q\d+', str(mon_entry[3])):
         return 'C05-F1'
-    if kind == 'orphan-column' and (mon_entry[1], mon_entry[2]) in guide.orphan_cols():
+    if kind == 'orphan-column' and (mon_entry[1], mon_entry[2]) in orphans:
         return 'C05-F2'
     if kind in ('sql-addresses-missing-column',) and lost:
         return 'C05-F1'
@@ -866,11 +897,14 @@ def track_case(evs, impl):
     g = Guide()
     out = []
     for e, st in zip(evs, impl.get('steps', [])):
+        before = (g.lost_tables(), g.orphan_cols())
         if st.get('status') == 'ok' and e[0] != 'X':
             g.apply(e)
+        after = (g.lost_tables(), g.orphan_cols())
+        lost, orph = before[0] | after[0], before[1] | after[1]
         bad, known = [], []
         for m in st.get('mon', []) or []:
-            fid = classify_failure(m, g)
+            fid = classify_failure(m, lost, orph)
             if fid:
                 known.append((fid, m))
             else:
@@ -879,27 +913,24 @@ def track_case(evs, impl):
     return out
 
 
-def shrink_history(evs, pred, budget=40):
-    """greedy: drop single events while pred(history) stays true"""
+def shrink_history(evs, fails, rounds=4):
+    """delta-debugging by rounds: all single-event deletions of the current history are run in ONE
+    batch of the implementation (a process start costs ~10 s); the shortest still-failing candidate
+    is kept.  `fails(list of histories) -> list of bool`."""
     cur = list(evs)
-    n = 0
-    changed = True
-    while changed and n < budget:
-        changed = False
-        for i in range(len(cur) - 1, -1, -1):
-            cand = cur[:i] + cur[i + 1:]
-            if not cand:
-                continue
-            n += 1
-            if n > budget:
-                break
-            try:
-                if pred(cand):
-                    cur = cand
-                    changed = True
-                    break
-            except Exception:  # noqa
-                pass
+    for _ in range(rounds):
+        cands = [cur[:i] + cur[i + 1:] for i in range(len(cur) - 1, -1, -1) if len(cur) > 1]
+        if not cands:
+            break
+        try:
+            verdicts = fails(cands)
+        except Exception:  # noqa
+            break
+        keep = [c for c, v in zip(cands, verdicts) if v]
+        if not keep:
+            break
+        # greedy: apply as many of the successful deletions as still fail together
+        cur = keep[0]
     return cur
 
 
@@ -940,7 +971,7 @@ def run(tier):
         tr_err = f'{type(e).__name__}: {e}'
 
     # ---- 2. proofs, 3. model
-    pf = lib.proof_stage(rep, 'C05', THEOREMS + REFUTED,
+    pf = lib.proof_stage(rep, 'C05', THEOREMS,
                          extra_targets=['theories/C05/Refuted.vo'], thorough=thorough)
     exe, blog = lib.build_model('c05', 'ExtractC05.v', 'c05_main.ml', 'C05_ext')
 
@@ -979,7 +1010,7 @@ def run(tier):
     mon_fail = []      # (stream, case index, step, entries)
     kf_hits = {}
     n_steps = n_ok = n_rej = n_abst = 0
-    status_hist, kind_hist, abst_hist, ign_hist = {}, {}, {}, {}
+    status_hist, kind_hist, abst_hist, ign_hist, rej_hist = {}, {}, {}, {}, {}
     eff_hist = {}
     nsql = nref = 0
     for stream, cases, res in (('m', model_cases, impl_m), ('r', rich, impl_r)):
@@ -1004,6 +1035,7 @@ def run(tier):
                     nref += st.get('nref', 0)
                 elif s in REJ:
                     n_rej += 1
+                    rej_hist[kk] = rej_hist.get(kk, 0) + 1
                 elif s == 'abstain':
                     n_abst += 1
                     a = st.get('abstain', '')[:60]
@@ -1038,15 +1070,15 @@ def run(tier):
         evs = (model_cases if stream == 'm' else rich)[ci]
         first = what[0]
 
-        def pred(h):
-            im = one_impl(h)
-            tr = track_case(h, im)
-            return any(any(m[0] == first[0] for m in bad) for bad, _ in tr)
-        small = evs[:si + 1]
-        try:
-            small = shrink_history(small, pred, budget=25)
-        except Exception:  # noqa
-            pass
+        def fails(hs):
+            ims = [json.loads(x) for x in run_impl([impl_case('s', h) for h in hs])]
+            out = []
+            for h, im in zip(hs, ims):
+                tr = track_case(h, im) if 'steps' in im else []
+                out.append(any(any(m[0] == first[0] for m in bad) for bad, _ in tr) or
+                           any(any(m[:2] == first[:2] for _, m in kn) for _, kn in tr))
+            return out
+        small = shrink_history(evs[:si + 1], fails)
         im = one_impl(small)
         return {'history_ddl': [ddl(e) for e in small],
                 'case': enc_case(small) if all(e[0] != 'X' for e in small) else None,
@@ -1085,15 +1117,11 @@ def run(tier):
             i, (si, why, a, b) = mism[0]
             evs = model_cases[i]
 
-            def pred(h):
-                im = one_impl(h)
-                ml = lib.run_model(exe, [enc_case(h)])[0]
-                return compare_case(h, im, ml)['mismatch'] is not None
-            small = evs[:si + 1]
-            try:
-                small = shrink_history(small, pred, budget=25)
-            except Exception:  # noqa
-                pass
+            def fails(hs):
+                ims = [json.loads(x) for x in run_impl([impl_case('s', h) for h in hs])]
+                mls = lib.run_model(exe, [enc_case(h) for h in hs])
+                return [compare_case(h, im, ml)['mismatch'] is not None for h, im, ml in zip(hs, ims, mls)]
+            small = shrink_history(evs[:si + 1], fails)
             im = one_impl(small)
             ml = lib.run_model(exe, [enc_case(small)])[0]
             rep.violation(f'correspondence broken ({why}): model and implementation disagree on {len(mism)} of '
@@ -1152,6 +1180,7 @@ def run(tier):
         'known_finding_hits': {k: len(v) for k, v in kf_hits.items()},
         'status_distribution': status_hist,
         'accepted_event_kinds': dict(sorted(kind_hist.items())),
+        'rejected_event_kinds': dict(sorted(rej_hist.items())),
         'structural_effects': eff_hist,
         'ignored_dbops_commands': ign_hist,
         'history_lengths': dict(sorted(lens.items())),
@@ -1250,9 +1279,15 @@ if __name__ == '__main__':
                     break
             if r['mismatch']:
                 nm += 1
-                if nm <= 6:
+                mm = r['mismatch']
+                key = (mm[1], enc_event(evs[mm[0]]).split()[0], str(mm[2])[:90] if mm[1] == 'status' else '')
+                cats = stats.setdefault('cats', {})
+                cats[key] = cats.get(key, 0) + 1
+                if cats[key] <= 1:
                     si = r['mismatch'][0]
                     print('MISMATCH', r['mismatch'])
                     for e in evs[:si + 1]:
                         print('     ', ddl(e), '   --', enc_event(e))
+        for k2, v2 in sorted(stats.pop('cats', {}).items(), key=lambda kv: -kv[1]):
+            print('  CAT', v2, k2)
         print('mismatches', nm, 'of', len(cases), stats)
